@@ -39,6 +39,7 @@ def check(chk):
     chk.rule('C21.whitelist', 'the white-list policy tests membership against the resolved allow-list in populate, distance, on_up and on_add')
     chk.rule('C21.forward', 'every wrapper policy forwards on_up/on_down/on_add/on_remove (and populate/distance) to its child with the same arguments')
     chk.rule('C21.slice', 'DC-aware: distance() and make_query_plan() bound remote hosts with the same slice; local hosts come first; one cycle, no repeats')
+    chk.rule('C21.dc', 'DC-aware: the datacenter a host is filed under, looked up under and measured by is always _dc(host) (unknown datacenter counts as local)')
     chk.rule('C21.filter', 'HostFilterPolicy yields only hosts satisfying the predicate and reports the others IGNORED')
     chk.rule('C21.populate', 'populate groups hosts per datacenter by accumulation (no groupby over an unsorted iterable with per-group assignment)')
     pol = chk.repo.mod(POL)
@@ -111,6 +112,22 @@ def check(chk):
                 okd = False
     chk.judge(okd and seen_d == set(['HostDistance.LOCAL', 'HostDistance.REMOTE', 'HostDistance.IGNORED']), 'C21.slice', dist,
               'distance: LOCAL for the local DC; REMOTE for a host inside the bounded slice of its DC; IGNORED otherwise (branch facts at every return)', 'distance table changed')
+    # the datacenter key: _dc(host) = host.datacenter or self.local_dc, and nothing else reads host.datacenter to pick a bucket or a distance
+    dcf = pol.func('DCAwareRoundRobinPolicy._dc')
+    rets_dc = [n for n in body_walk(dcf) if isinstance(n, ast.Return)]
+    chk.judge(len(rets_dc) == 1 and src(rets_dc[0].value) == 'host.datacenter or self.local_dc', 'C21.dc', dcf, '_dc(host) = host.datacenter or self.local_dc', '_dc changed')
+    for q, f in pol.functions():
+        if not q.startswith('DCAwareRoundRobinPolicy.') or q.endswith('._dc'):
+            continue
+        for n in body_walk(f):
+            if isinstance(n, ast.Attribute) and n.attr == 'datacenter' and isinstance(n.ctx, ast.Load):
+                # allowed: inferring local_dc from a contact point (reads the raw value on purpose, guarded by `not self.local_dc`)
+                from ..core import enclosing
+                st = enclosing(n, (ast.stmt,))
+                infer = isinstance(st, ast.If) and 'not self.local_dc' in src(st.test) or (isinstance(st, ast.Assign) and src(st.targets[0]) == 'self.local_dc')
+                chk.judge(bool(infer), 'C21.dc', n, '%s reads %s only to infer local_dc' % (q, src(n)),
+                          '%s uses the raw %s where every other place uses _dc(host): a host whose datacenter is still unknown is filed / planned as local '
+                          'but measured or looked up under None' % (q, src(n)))
     pop = pol.func('DCAwareRoundRobinPolicy.populate')
     gb = [n for n in body_walk(pop) if isinstance(n, ast.Call) and src(n.func).endswith('groupby')]
     bad_gb = [g for g in gb if not (g.args and isinstance(g.args[0], ast.Call) and src(g.args[0].func) == 'sorted')]
